@@ -557,5 +557,630 @@ Proof.
   rewrite E. erewrite IH.
   - rewrite app_w_len. reflexivity.
   - unfold app_w. rewrite Hn. destruct (fst (wr_write (s_len s) w c)) as [w' fl] eqn:Ew. simpl.
-    erewrite nth_error_upd_eq by eauto. f_equal. destruct (wr_write (s_len s) w c) as [[a b0] c0]. simpl in *. congruence.
+    erewrite nth_error_upd_eq by eauto. reflexivity.
+Qed.
+
+(* ------------------------------------------------------------------------------------------ *)
+(* control-neutral transitions: only writers, the map and plain callbacks change              *)
+(* ------------------------------------------------------------------------------------------ *)
+Definition plain (it : qitem) : Prop :=
+  match it with QClose _ | QRemove _ | QWfc _ | QNop => True | _ => False end.
+
+Definition same_ctl (s s' : state) : Prop :=
+  s_writing s' = s_writing s /\ s_verified s' = s_verified s /\ s_io s' = s_io s
+  /\ s_store s' = s_store s /\ s_completed s' = s_completed s /\ s_len s' = s_len s
+  /\ exists l, s_q s' = s_q s ++ l /\ Forall plain l.
+
+Lemma same_ctl_refl s : same_ctl s s.
+Proof. unfold same_ctl; repeat split; auto. exists []; rewrite app_nil_r; auto. Qed.
+
+Lemma same_ctl_trans s1 s2 s3 : same_ctl s1 s2 -> same_ctl s2 s3 -> same_ctl s1 s3.
+Proof.
+  intros (A1 & A2 & A3 & A4 & A5 & A6 & l1 & A7 & A8) (B1 & B2 & B3 & B4 & B5 & B6 & l2 & B7 & B8).
+  unfold same_ctl; repeat split; try congruence.
+  exists (l1 ++ l2). split. rewrite B7, A7, app_assoc; auto. apply Forall_app; auto.
+Qed.
+
+Lemma plain_fire i w fl : Forall plain (fire i w fl).
+Proof. destruct fl; simpl; repeat constructor. Qed.
+
+Lemma same_ctl_app_w f i s : same_ctl s (app_w f i s).
+Proof.
+  unfold app_w. destruct (nth_error (s_ws s) i); [|apply same_ctl_refl].
+  destruct (f w) as [w' fl]. unfold same_ctl; simpl; repeat split; auto.
+  eexists; split; eauto. apply plain_fire.
+Qed.
+
+Lemma same_ctl_set_map m s : same_ctl s (set_map m s).
+Proof. unfold same_ctl; simpl; repeat split; auto. exists []; rewrite app_nil_r; auto. Qed.
+
+Lemma same_ctl_fold {A} (g : A -> state -> state) l s :
+  (forall x st, same_ctl st (g x st)) -> same_ctl s (fold_right g s l).
+Proof.
+  intros Hg. induction l; simpl. apply same_ctl_refl. eapply same_ctl_trans; eauto.
+Qed.
+
+Lemma same_ctl_close_blob s : same_ctl s (close_blob s).
+Proof.
+  unfold close_blob. eapply same_ctl_trans; [|apply same_ctl_set_map].
+  apply same_ctl_fold. intros; apply same_ctl_app_w.
+Qed.
+
+Lemma same_ctl_close_others i s : same_ctl s (close_others i s).
+Proof.
+  unfold close_others. eapply same_ctl_trans; [|apply same_ctl_set_map].
+  apply same_ctl_fold. intros x st. destruct (Nat.eqb (snd x) i). apply same_ctl_refl. apply same_ctl_app_w.
+Qed.
+
+Lemma same_ctl_open k s : same_ctl s (fst (open_writer kd k s)).
+Proof.
+  unfold open_writer. destruct (file_exists kd s); simpl; [apply same_ctl_refl|].
+  match goal with |- context [if ?c then _ else _] => destruct c end; simpl; [apply same_ctl_refl|].
+  unfold same_ctl; simpl; repeat split; auto. exists []; rewrite app_nil_r; auto.
+Qed.
+
+Lemma same_ctl_write i d s : same_ctl s (fst (write H h i d s)).
+Proof.
+  unfold write. destruct (nth_error (s_ws s) i); simpl; [|apply same_ctl_refl]. apply same_ctl_app_w.
+Qed.
+
+Lemma same_ctl_set_length n s : s_len s <> None -> same_ctl s (set_length n s).
+Proof. intros Hn. unfold set_length. destruct (s_len s); [apply same_ctl_refl|contradiction]. Qed.
+
+(* ------------------------------------------------------------------------------------------ *)
+(* counting invariant: at most one save in flight, completion callback at most once           *)
+(* ------------------------------------------------------------------------------------------ *)
+Definition is_task it := match it with QTask _ => true | _ => false end.
+Definition is_ss it := match it with QSetState => true | _ => false end.
+Definition is_wk it := match it with QWakeup => true | _ => false end.
+Definition is_up it := match it with QUpdate => true | _ => false end.
+Definition is_cp it := match it with QCompleted => true | _ => false end.
+Definition cnt (p : qitem -> bool) (q : list qitem) : nat := length (filter p q).
+Definition stage_q q := (cnt is_task q + cnt is_ss q + cnt is_wk q + cnt is_up q)%nat.
+Definition b2n (b : bool) : nat := if b then 1 else 0.
+Definition io01 (s : state) : nat := match s_io s with Some _ => 1 | None => 0 end.
+
+Arguments cnt : simpl never.
+Arguments stage_q : simpl never.
+
+Lemma cnt_app p a b : cnt p (a ++ b) = (cnt p a + cnt p b)%nat.
+Proof. unfold cnt. rewrite filter_app, app_length. auto. Qed.
+Lemma stage_app a b : stage_q (a ++ b) = (stage_q a + stage_q b)%nat.
+Proof. unfold stage_q. rewrite !cnt_app. lia. Qed.
+Lemma cnt_cons p it r : cnt p (it :: r) = (cnt p [it] + cnt p r)%nat.
+Proof. apply (cnt_app p [it] r). Qed.
+Lemma stage_cons it r : stage_q (it :: r) = (stage_q [it] + stage_q r)%nat.
+Proof. apply (stage_app [it] r). Qed.
+Lemma cnt_plain p l : Forall plain l -> (forall it, plain it -> p it = false) -> cnt p l = O.
+Proof.
+  intros Hl Hp. induction Hl; auto. unfold cnt in *. simpl. rewrite Hp by auto. auto.
+Qed.
+Lemma stage_plain l : Forall plain l -> stage_q l = O.
+Proof.
+  intros Hl. unfold stage_q. rewrite !cnt_plain; auto; intros []; simpl; tauto.
+Qed.
+
+Definition Inv2 (s : state) : Prop :=
+  (stage_q (s_q s) + io01 s = b2n (s_writing s))%nat
+  /\ (s_verified s = true -> s_writing s = false)
+  /\ (s_completed s + cnt is_cp (s_q s) = if cb then b2n (s_verified s) + cnt is_up (s_q s) else 0)%nat
+  /\ (s_store s <> None -> s_verified s = true \/ s_writing s = true).
+
+Lemma Inv2_init : Inv2 init.
+Proof. unfold Inv2, init; simpl. repeat split; auto; try congruence. destruct cb; auto. Qed.
+
+Lemma Inv2_same_ctl s s' : same_ctl s s' -> Inv2 s -> Inv2 s'.
+Proof.
+  intros (A1 & A2 & A3 & A4 & A5 & A6 & l & A7 & A8) (I1 & I2 & I3 & I4).
+  unfold Inv2, io01. rewrite A1, A2, A3, A4, A5, A7. rewrite stage_app, !cnt_app.
+  rewrite (stage_plain l) by auto. rewrite !(cnt_plain _ l) by (auto; intros []; simpl; tauto).
+  unfold io01 in I1. repeat split; auto; try lia. destruct cb; lia.
+Qed.
+
+Lemma stage_done_cbs : stage_q (done_cbs cb) = 1%nat.
+Proof. unfold done_cbs. destruct cb; reflexivity. Qed.
+Lemma cnt_up_done_cbs : cnt is_up (done_cbs cb) = 1%nat.
+Proof. unfold done_cbs. destruct cb; reflexivity. Qed.
+Lemma cnt_cp_done_cbs : cnt is_cp (done_cbs cb) = if cb then 1%nat else O.
+Proof. unfold done_cbs. destruct cb; reflexivity. Qed.
+
+Lemma Inv2_save_verified b s : Inv2 s -> Inv2 (save_verified kd b s).
+Proof.
+  intros I. unfold save_verified. destruct (s_verified s) eqn:V; auto.
+  destruct (writeable kd s) eqn:W; auto. destruct I as (I1 & I2 & I3 & I4).
+  unfold writeable in W. apply andb_true_iff in W. destruct W as [W1 W2]. apply negb_true_iff in W1.
+  unfold Inv2, io01 in *; simpl. rewrite V, W1 in *. rewrite stage_app, !cnt_app. simpl in *.
+  change (stage_q [QTask b]) with 1%nat. change (cnt is_cp [QTask b]) with O. change (cnt is_up [QTask b]) with O.
+  repeat split; auto; try congruence; try lia. destruct cb; lia.
+Qed.
+
+Lemma Inv2_run_item it r s : Inv2 s -> s_q s = it :: r -> Inv2 (run_item kd cb it (set_q r s)).
+Proof.
+  intros (I1 & I2 & I3 & I4) Eq. rewrite Eq in *.
+  assert (P : forall it', plain it' -> it = it' -> Inv2 (set_q r s)).
+  { intros it' Hp ->. unfold Inv2, io01 in *; simpl.
+    replace (stage_q (it' :: r)) with (stage_q r) in I1 by (destruct it'; simpl in Hp; try tauto; reflexivity).
+    replace (cnt is_cp (it' :: r)) with (cnt is_cp r) in I3 by (destruct it'; simpl in Hp; try tauto; reflexivity).
+    replace (cnt is_up (it' :: r)) with (cnt is_up r) in I3 by (destruct it'; simpl in Hp; try tauto; reflexivity).
+    repeat split; auto. }
+  destruct it; simpl.
+  - eapply Inv2_same_ctl; [apply same_ctl_app_w|]. eapply P; simpl; eauto. simpl; auto.
+  - eapply Inv2_same_ctl; [apply same_ctl_set_map|]. eapply P; simpl; eauto. simpl; auto.
+  - assert (I0 : Inv2 (set_q r s)) by (eapply P; simpl; eauto; simpl; auto).
+    destruct (nth_error (s_ws s) i); auto. destruct (w_fut w); auto.
+    apply Inv2_save_verified. eapply Inv2_same_ctl; [apply same_ctl_close_others|]. auto.
+  - (* QTask *)
+    rewrite stage_cons in I1. rewrite (cnt_cons is_cp), (cnt_cons is_up) in I3.
+    change (stage_q [QTask b]) with 1%nat in I1. change (cnt is_cp [QTask b]) with O in I3. change (cnt is_up [QTask b]) with O in I3.
+    simpl plus in I1, I3.
+    assert (Wr : s_writing s = true) by (destruct (s_writing s); simpl in I1; auto; lia).
+    assert (V : s_verified s = false) by (destruct (s_verified s); auto; rewrite I2 in Wr; auto; discriminate).
+    unfold io01 in I1. rewrite Wr in I1. simpl in I1.
+    assert (Io : s_io s = None) by (destruct (s_io s); auto; lia). rewrite Io in I1.
+    destruct kd.
+    + unfold Inv2, io01; simpl. rewrite Wr, V in *. repeat split; auto; try congruence; simpl; try lia; try (destruct cb; simpl in *; lia).
+    + assert (X : Inv2 (enq (done_cbs cb) (set_q r s))).
+      { unfold Inv2, io01, enq; simpl. rewrite Wr, V, Io in *. rewrite stage_app, !cnt_app.
+        rewrite stage_done_cbs, cnt_up_done_cbs, cnt_cp_done_cbs.
+        repeat split; auto; try congruence; simpl; try lia; try (destruct cb; simpl in *; lia). }
+      destruct (s_store s) eqn:Es; auto.
+      destruct X as (X1 & X2 & X3 & X4). unfold Inv2, io01, enq in *; simpl in *. repeat split; auto.
+  - (* QSetState *)
+    rewrite stage_cons in I1. rewrite (cnt_cons is_cp), (cnt_cons is_up) in I3.
+    change (stage_q [QSetState]) with 1%nat in I1. change (cnt is_cp [QSetState]) with O in I3. change (cnt is_up [QSetState]) with O in I3.
+    simpl plus in I1, I3.
+    unfold Inv2, io01, enq in *; simpl. rewrite stage_app, !cnt_app.
+    change (stage_q [QNop; QWakeup]) with 1%nat. change (cnt is_cp [QNop; QWakeup]) with O. change (cnt is_up [QNop; QWakeup]) with O.
+    repeat split; auto; try congruence; rewrite <- ?plus_n_O; auto; try lia; try (destruct cb; simpl in *; lia).
+  - eapply P; simpl; eauto. simpl; auto.
+  - (* QWakeup *)
+    rewrite stage_cons in I1. rewrite (cnt_cons is_cp), (cnt_cons is_up) in I3.
+    change (stage_q [QWakeup]) with 1%nat in I1. change (cnt is_cp [QWakeup]) with O in I3. change (cnt is_up [QWakeup]) with O in I3.
+    simpl plus in I1, I3.
+    assert (Wr : s_writing s = true) by (destruct (s_writing s); simpl in I1; auto; lia).
+    assert (V : s_verified s = false) by (destruct (s_verified s); auto; rewrite I2 in Wr; auto; discriminate).
+    unfold Inv2, io01, enq in *; simpl. rewrite stage_app, !cnt_app.
+    rewrite stage_done_cbs, cnt_up_done_cbs, cnt_cp_done_cbs. rewrite V in *.
+    repeat split; auto; try congruence; try lia; try (destruct cb; simpl in *; lia).
+  - (* QUpdate *)
+    rewrite stage_cons in I1. rewrite (cnt_cons is_cp), (cnt_cons is_up) in I3.
+    change (stage_q [QUpdate]) with 1%nat in I1. change (cnt is_cp [QUpdate]) with O in I3. change (cnt is_up [QUpdate]) with 1%nat in I3.
+    simpl plus in I1, I3.
+    assert (Wr : s_writing s = true) by (destruct (s_writing s); simpl in I1; auto; lia).
+    assert (V : s_verified s = false) by (destruct (s_verified s); auto; rewrite I2 in Wr; auto; discriminate).
+    unfold Inv2, io01 in *; simpl. rewrite Wr, V in *. simpl in *.
+    repeat split; auto; try congruence; try lia; try (destruct cb; simpl in *; lia).
+  - (* QCompleted *)
+    rewrite stage_cons in I1. rewrite (cnt_cons is_cp), (cnt_cons is_up) in I3.
+    change (stage_q [QCompleted]) with O in I1. change (cnt is_cp [QCompleted]) with 1%nat in I3. change (cnt is_up [QCompleted]) with O in I3.
+    simpl plus in I1, I3.
+    unfold Inv2, io01 in *; simpl. repeat split; auto; try congruence; try lia; try (destruct cb; simpl in *; lia).
+Qed.
+
+Lemma Inv2_step1 s : Inv2 s -> Inv2 (step1 kd cb s).
+Proof. intros I. unfold step1. destruct (s_q s) eqn:Eq; auto. apply Inv2_run_item; auto. Qed.
+
+Lemma Inv2_iter n s : Inv2 s -> Inv2 (iter kd cb n s).
+Proof. revert s; induction n; simpl; auto. intros; apply IHn. apply Inv2_step1; auto. Qed.
+
+Lemma Inv2_io_done s : Inv2 s -> Inv2 (io_done s).
+Proof.
+  intros (I1 & I2 & I3 & I4). unfold io_done. destruct (s_io s) eqn:Ei; [|repeat split; auto].
+  unfold Inv2, io01, enq in *; simpl. rewrite Ei in *. rewrite stage_app, !cnt_app.
+  change (stage_q [QSetState]) with 1%nat. change (cnt is_cp [QSetState]) with O. change (cnt is_up [QSetState]) with O.
+  assert (Wr : s_writing s = true) by (destruct (s_writing s); simpl in I1; auto; lia).
+  repeat split; auto; try congruence; rewrite <- ?plus_n_O; auto; try lia; try (destruct cb; simpl in *; lia).
+Qed.
+
+Lemma Inv2_step o s : Inv2 s -> Inv2 (fst (step o s)).
+Proof.
+  intros I. destruct o; simpl.
+  - unfold set_length. destruct (s_len s); auto.
+    destruct ((0 <=? n)%Z && (n <=? Z.of_N MAX_BLOB_SIZE)%Z); auto.
+  - eapply Inv2_same_ctl; [apply same_ctl_open|auto].
+  - eapply Inv2_same_ctl; [apply same_ctl_write|auto].
+  - eapply Inv2_same_ctl; [apply same_ctl_app_w|auto].
+  - eapply Inv2_same_ctl; [apply same_ctl_close_blob|auto].
+  - apply Inv2_iter; auto.
+  - apply Inv2_iter; auto.
+  - apply Inv2_io_done; auto.
+Qed.
+
+Lemma Inv2_run ops s : Inv2 s -> Inv2 (run ops s).
+Proof. revert s; induction ops; simpl; auto. intros; apply IHops. apply Inv2_step; auto. Qed.
+
+(* ------------------------------------------------------------------------------------------ *)
+(* writers only move forward: a done future keeps its value, a closed buffer stays closed     *)
+(* ------------------------------------------------------------------------------------------ *)
+Definition wmono (s s' : state) : Prop :=
+  forall i w, nth_error (s_ws s) i = Some w ->
+    exists w', nth_error (s_ws s') i = Some w' /\ w_key w' = w_key w
+               /\ (fut_done (w_fut w) = true -> w_fut w' = w_fut w)
+               /\ (w_open w' = true -> w_open w = true).
+
+Lemma wmono_refl s : wmono s s.
+Proof. intros i w Hn. exists w; auto. Qed.
+
+Lemma wmono_trans s1 s2 s3 : wmono s1 s2 -> wmono s2 s3 -> wmono s1 s3.
+Proof.
+  intros A B i w Hn. destruct (A i w Hn) as (w2 & N2 & K2 & F2 & O2).
+  destruct (B i w2 N2) as (w3 & N3 & K3 & F3 & O3). exists w3. repeat split; auto; try congruence.
+  intros D. rewrite F3; auto. rewrite F2; auto.
+Qed.
+
+Lemma wtrans_done_keeps len g w : wtrans len g -> fut_done (w_fut w) = true -> w_fut (fst (g w)) = w_fut w /\ snd (g w) = false.
+Proof.
+  intros Wt D. destruct (snd (g w)) eqn:E.
+  - destruct (wt_fire _ _ Wt w E) as (P & _). rewrite P in D. discriminate.
+  - split; auto. apply (wt_nofire _ _ Wt); auto.
+Qed.
+
+Lemma wmono_app_w len g j s : wtrans len g -> wmono s (app_w g j s).
+Proof.
+  intros Wt i w Hn. unfold app_w. destruct (nth_error (s_ws s) j) eqn:Hj; [|exists w; auto].
+  destruct (g w0) as [w' fl] eqn:Eg. simpl.
+  destruct (Nat.eq_dec j i) as [->|Hne].
+  - rewrite Hn in Hj. inversion Hj; subst w0. exists w'. erewrite nth_error_upd_eq by eauto.
+    replace w' with (fst (g w)) by (rewrite Eg; auto). repeat split; auto.
+    + apply (wt_key _ _ Wt).
+    + intros D. apply (wtrans_done_keeps _ _ _ Wt D).
+    + apply (wt_open _ _ Wt).
+  - exists w. rewrite nth_error_upd_neq by auto. auto.
+Qed.
+
+Lemma wmono_fold {A} (g : A -> state -> state) l s :
+  (forall x st, wmono st (g x st)) -> wmono s (fold_right g s l).
+Proof. intros Hg. induction l; simpl. apply wmono_refl. eapply wmono_trans; eauto. Qed.
+
+Lemma wmono_ws s s' : s_ws s' = s_ws s -> wmono s s'.
+Proof. intros E i w Hn. exists w. rewrite E. auto. Qed.
+
+Lemma wmono_close_others i s : wmono s (close_others i s).
+Proof.
+  unfold close_others. eapply wmono_trans; [|apply wmono_ws; reflexivity].
+  apply wmono_fold. intros x st. destruct (Nat.eqb (snd x) i). apply wmono_refl.
+  eapply wmono_app_w. apply (wtrans_close None).
+Qed.
+
+Lemma wmono_close_blob s : wmono s (close_blob s).
+Proof.
+  unfold close_blob. eapply wmono_trans; [|apply wmono_ws; reflexivity].
+  apply wmono_fold. intros x st. eapply wmono_app_w. apply (wtrans_cancel None).
+Qed.
+
+Lemma save_verified_ws b s : s_ws (save_verified kd b s) = s_ws s.
+Proof. unfold save_verified. destruct (s_verified s); auto. destruct (writeable kd s); auto. Qed.
+
+Lemma wmono_run_item it s : wmono s (run_item kd cb it s).
+Proof.
+  destruct it; simpl; try (apply wmono_ws; reflexivity).
+  - eapply wmono_app_w. apply (wtrans_close None).
+  - destruct (nth_error (s_ws s) i); [|apply wmono_refl]. destruct (w_fut w); try apply wmono_refl.
+    eapply wmono_trans; [apply wmono_close_others|]. apply wmono_ws. apply save_verified_ws.
+  - destruct kd; [apply wmono_ws; reflexivity|]. destruct (s_store s); apply wmono_ws; reflexivity.
+Qed.
+
+Lemma wmono_step1 s : wmono s (step1 kd cb s).
+Proof.
+  unfold step1. destruct (s_q s); [apply wmono_refl|].
+  eapply wmono_trans; [|apply wmono_run_item]. apply wmono_ws; reflexivity.
+Qed.
+
+Lemma wmono_iter n s : wmono s (iter kd cb n s).
+Proof.
+  revert s; induction n; simpl; intros. apply wmono_refl.
+  eapply wmono_trans; [apply wmono_step1|apply IHn].
+Qed.
+
+Lemma wmono_step o s : wmono s (fst (step o s)).
+Proof.
+  destruct o; simpl.
+  - apply wmono_ws. unfold set_length. destruct (s_len s); auto.
+    destruct ((0 <=? n)%Z && (n <=? Z.of_N MAX_BLOB_SIZE)%Z); auto.
+  - unfold open_writer. destruct (file_exists kd s); simpl; [apply wmono_refl|].
+    match goal with |- context [if ?c then _ else _] => destruct c end; simpl; [apply wmono_refl|].
+    intros i w Hn. exists w. simpl. rewrite nth_error_app1; auto. apply nth_error_Some. congruence.
+  - unfold write. destruct (nth_error (s_ws s) i); simpl; [|apply wmono_refl].
+    eapply wmono_app_w. apply wtrans_write.
+  - eapply wmono_app_w. apply (wtrans_close None).
+  - apply wmono_close_blob.
+  - apply wmono_iter.
+  - apply wmono_iter.
+  - apply wmono_ws. unfold io_done. destruct (s_io s); auto.
+Qed.
+
+Lemma wmono_run ops s : wmono s (run ops s).
+Proof.
+  revert s; induction ops; simpl; intros. apply wmono_refl.
+  eapply wmono_trans; [apply wmono_step|apply IHops].
+Qed.
+
+(* the internal transitions create no writer *)
+Lemma app_w_nws g j s : length (s_ws (app_w g j s)) = length (s_ws s).
+Proof. unfold app_w. destruct (nth_error (s_ws s) j); auto. destruct (g w); simpl. apply upd_length. Qed.
+
+Lemma fold_nws {A} (g : A -> state -> state) l s :
+  (forall x st, length (s_ws (g x st)) = length (s_ws st)) -> length (s_ws (fold_right g s l)) = length (s_ws s).
+Proof. intros Hg. induction l; simpl; auto. rewrite Hg; auto. Qed.
+
+Lemma run_item_nws it s : length (s_ws (run_item kd cb it s)) = length (s_ws s).
+Proof.
+  destruct it; simpl; auto.
+  - apply app_w_nws.
+  - destruct (nth_error (s_ws s) i); auto. destruct (w_fut w); auto. rewrite save_verified_ws.
+    unfold close_others; simpl. apply fold_nws. intros x st. destruct (Nat.eqb (snd x) i); auto. apply app_w_nws.
+  - destruct kd; auto. destruct (s_store s); auto.
+Qed.
+
+Lemma step1_nws s : length (s_ws (step1 kd cb s)) = length (s_ws s).
+Proof. unfold step1. destruct (s_q s); auto. rewrite run_item_nws. auto. Qed.
+
+Lemma iter_nws n s : length (s_ws (iter kd cb n s)) = length (s_ws s).
+Proof. revert s; induction n; simpl; auto. intros. rewrite IHn. apply step1_nws. Qed.
+
+(* no writer is pending *)
+Definition NP (s : state) : Prop := forall i w, nth_error (s_ws s) i = Some w -> fut_done (w_fut w) = true.
+
+Lemma NP_mono s s' : wmono s s' -> length (s_ws s') = length (s_ws s) -> NP s -> NP s'.
+Proof.
+  intros M Ln Np i w' Hn.
+  assert (Hi : (i < length (s_ws s))%nat) by (rewrite <- Ln; apply nth_error_Some; congruence).
+  destruct (nth_error (s_ws s) i) as [w|] eqn:Hw; [|apply nth_error_None in Hw; lia].
+  destruct (M i w Hw) as (w2 & N2 & _ & F2 & _). rewrite Hn in N2. inversion N2; subst w2.
+  rewrite F2; eauto.
+Qed.
+
+(* ------------------------------------------------------------------------------------------ *)
+(* Drain terminates: [fuel] steps empty the ready queue                                       *)
+(* ------------------------------------------------------------------------------------------ *)
+Lemma qweight_app a b : qweight (a ++ b) = (qweight a + qweight b)%nat.
+Proof. induction a; simpl; auto. rewrite IHa. lia. Qed.
+
+Lemma pending_upd ws i w w' : nth_error ws i = Some w ->
+  (pending_count (upd i w' ws) + b2n (negb (fut_done (w_fut w))) = pending_count ws + b2n (negb (fut_done (w_fut w'))))%nat.
+Proof.
+  revert i; induction ws as [|a ws IH]; intros [|i] Hn; simpl in *; try discriminate.
+  - inversion Hn; subst a. unfold pending_count; simpl.
+    destruct (fut_done (w_fut w)); destruct (fut_done (w_fut w')); simpl; lia.
+  - specialize (IH i Hn). unfold pending_count in *; simpl.
+    destruct (negb (fut_done (w_fut a))); simpl; lia.
+Qed.
+
+Lemma fuel_app_w len g j s : wtrans len g -> fuel (app_w g j s) = fuel s.
+Proof.
+  intros Wt. unfold app_w. destruct (nth_error (s_ws s) j) eqn:Hj; auto.
+  destruct (g w) as [w' fl] eqn:Eg. unfold fuel, enq; simpl. rewrite qweight_app.
+  pose proof (pending_upd _ _ _ w' Hj) as P.
+  destruct fl.
+  - destruct (wt_fire _ _ Wt w) as (P1 & P2); [rewrite Eg; auto|]. rewrite Eg in P2; simpl in P2.
+    rewrite P1, P2 in P. simpl in *. lia.
+  - pose proof (wt_nofire _ _ Wt w) as P1. rewrite Eg in P1. simpl in P1. rewrite P1 in P by auto.
+    simpl. lia.
+Qed.
+
+Lemma fuel_fold {A} (g : A -> state -> state) l s :
+  (forall x st, fuel (g x st) = fuel st) -> fuel (fold_right g s l) = fuel s.
+Proof. intros Hg. induction l; simpl; auto. rewrite Hg; auto. Qed.
+
+Lemma fuel_close_others i s : fuel (close_others i s) = fuel s.
+Proof.
+  unfold close_others. change (fuel (set_map [] ?x)) with (fuel x).
+  apply fuel_fold. intros x st. destruct (Nat.eqb (snd x) i); auto. eapply fuel_app_w. apply (wtrans_close None).
+Qed.
+
+Lemma fuel_save_verified b s : (fuel (save_verified kd b s) <= fuel s + 3)%nat.
+Proof.
+  unfold save_verified. destruct (s_verified s); [lia|]. destruct (writeable kd s); [|lia].
+  unfold fuel; simpl. rewrite qweight_app. simpl. lia.
+Qed.
+
+Lemma qweight_done_cbs : (qweight (done_cbs cb) <= 2)%nat.
+Proof. unfold done_cbs. destruct cb; simpl; lia. Qed.
+
+Lemma fuel_run_item it r s : s_q s = it :: r -> (fuel (run_item kd cb it (set_q r s)) < fuel s)%nat.
+Proof.
+  intros Eq. assert (F0 : fuel s = (wt it + fuel (set_q r s))%nat).
+  { unfold fuel. rewrite Eq. simpl. lia. }
+  rewrite F0. pose proof qweight_done_cbs as Qd.
+  destruct it; simpl wt; simpl run_item.
+  - unfold close_handle. erewrite fuel_app_w by apply (wtrans_close None). lia.
+  - change (fuel (set_map ?m ?x)) with (fuel x). lia.
+  - change (s_ws (set_q r s)) with (s_ws s).
+    destruct (nth_error (s_ws s) i); [|lia]. destruct (w_fut w); try lia.
+    pose proof (fuel_save_verified b (close_others i (set_q r s))) as P. rewrite fuel_close_others in P. lia.
+  - destruct kd.
+    + change (fuel (set_io ?m ?x)) with (fuel x). lia.
+    + change (s_store (set_q r s)) with (s_store s). destruct (s_store s).
+      * unfold fuel, enq; simpl. rewrite qweight_app. unfold done_cbs. destruct cb; simpl; lia.
+      * unfold fuel, enq; simpl. rewrite qweight_app. unfold done_cbs. destruct cb; simpl; lia.
+  - unfold fuel, enq; simpl. rewrite qweight_app. simpl. lia.
+  - lia.
+  - unfold fuel, enq; simpl. rewrite qweight_app. unfold done_cbs. destruct cb; simpl; lia.
+  - change (fuel (set_writing ?a (set_verified ?b ?x))) with (fuel x). lia.
+  - change (fuel (set_completed ?a ?x)) with (fuel x). lia.
+Qed.
+
+Lemma iter_quiet n s : s_q s = [] -> iter kd cb n s = s.
+Proof. intros E. induction n; simpl; auto. unfold step1. rewrite E. auto. Qed.
+
+Lemma iter_fuel n : forall s, (fuel s <= n)%nat -> s_q (iter kd cb n s) = [].
+Proof.
+  induction n; intros s Hf.
+  - simpl. destruct (s_q s) as [|it r] eqn:Eq; auto. unfold fuel in Hf. rewrite Eq in Hf. simpl in Hf.
+    destruct it; simpl in Hf; lia.
+  - simpl. destruct (s_q s) as [|it r] eqn:Eq.
+    + unfold step1. rewrite Eq. rewrite iter_quiet; auto.
+    + apply IHn. unfold step1. rewrite Eq. pose proof (fuel_run_item it r s Eq). lia.
+Qed.
+
+Lemma drain_quiescent s : s_q (drain kd cb s) = [].
+Proof. unfold drain. apply iter_fuel. lia. Qed.
+
+(* ------------------------------------------------------------------------------------------ *)
+(* liveness: once a writer holds a complete correct copy the blob ends up verified            *)
+(* ------------------------------------------------------------------------------------------ *)
+Definition won (s : state) : Prop :=
+  exists i w b, In (QWfc i) (s_q s) /\ nth_error (s_ws s) i = Some w /\ w_fut w = FOk b.
+Definition Live (s : state) : Prop := s_verified s = true \/ s_writing s = true \/ won s.
+
+Lemma won_mono s s' : wmono s s' -> (forall it, In it (s_q s) -> In it (s_q s')) -> won s -> won s'.
+Proof.
+  intros M Q (i & w & b & A & B & C). destruct (M i w B) as (w' & N' & _ & F' & _).
+  exists i, w', b. repeat split; auto. rewrite F'; auto. rewrite C; auto.
+Qed.
+
+Lemma Live_neutral s s' : same_ctl s s' -> wmono s s' -> Live s -> Live s'.
+Proof.
+  intros (A1 & A2 & _ & _ & _ & _ & l & A7 & _) M [V|[W|Wn]].
+  - left; congruence.
+  - right; left; congruence.
+  - right; right. eapply won_mono; eauto. intros it Hin. rewrite A7. apply in_or_app; auto.
+Qed.
+
+Lemma run_item_verified it s : s_verified s = true -> s_verified (run_item kd cb it s) = true.
+Proof.
+  intros V. destruct it; simpl; auto.
+  - destruct (same_ctl_app_w close_handle_w i s) as (_ & X & _). unfold close_handle. congruence.
+  - destruct (nth_error (s_ws s) i); auto. destruct (w_fut w); auto.
+    destruct (same_ctl_close_others i s) as (_ & X & _).
+    unfold save_verified. rewrite X, V. congruence.
+  - destruct kd; auto. destruct (s_store s); auto.
+Qed.
+
+Lemma save_verified_live b s :
+  (s_store s <> None -> s_verified s = true \/ s_writing s = true) ->
+  s_verified (save_verified kd b s) = true \/ s_writing (save_verified kd b s) = true.
+Proof.
+  intros E4. unfold save_verified. destruct (s_verified s) eqn:V; auto.
+  destruct (writeable kd s) eqn:W; simpl; auto.
+  unfold writeable in W. apply andb_false_iff in W. destruct W as [W|W].
+  - apply negb_false_iff in W. auto.
+  - apply negb_false_iff in W. unfold file_exists in W. destruct kd; try discriminate.
+    destruct (s_store s); try discriminate. destruct E4 as [X|X]; auto; congruence.
+Qed.
+
+Lemma run_item_writing it s : s_writing s = true ->
+  s_writing (run_item kd cb it s) = true \/ s_verified (run_item kd cb it s) = true.
+Proof.
+  intros V. destruct it; simpl; auto.
+  - destruct (same_ctl_app_w close_handle_w i s) as (X & _). unfold close_handle. left; congruence.
+  - destruct (nth_error (s_ws s) i); auto. destruct (w_fut w); auto.
+    destruct (same_ctl_close_others i s) as (X & _).
+    unfold save_verified. destruct (s_verified (close_others i s)) eqn:Vf; auto.
+    destruct (writeable kd (close_others i s)); [simpl; auto|left; congruence].
+  - destruct kd; auto. destruct (s_store s); auto.
+Qed.
+
+Lemma run_item_q it s : exists l, s_q (run_item kd cb it s) = s_q s ++ l.
+Proof.
+  destruct it; simpl; try (exists []; rewrite app_nil_r; reflexivity); try (eexists; reflexivity).
+  - destruct (same_ctl_app_w close_handle_w i s) as (_ & _ & _ & _ & _ & _ & l & X & _). exists l; auto.
+  - destruct (nth_error (s_ws s) i); [|exists []; rewrite app_nil_r; reflexivity].
+    destruct (w_fut w); try (exists []; rewrite app_nil_r; reflexivity).
+    destruct (same_ctl_close_others i s) as (_ & _ & _ & _ & _ & _ & l & X & _).
+    unfold save_verified. destruct (s_verified (close_others i s)); [exists l; auto|].
+    destruct (writeable kd (close_others i s)); [|exists l; auto].
+    unfold enq, set_writing, set_q; cbn [s_q]. rewrite X. rewrite <- app_assoc. eexists; reflexivity.
+  - destruct kd. exists []; rewrite app_nil_r; reflexivity.
+    destruct (s_store s); simpl; eexists; reflexivity.
+Qed.
+
+Lemma Live_step1 s : Inv2 s -> Live s -> Live (step1 kd cb s).
+Proof.
+  intros I2 Lv. unfold step1. destruct (s_q s) as [|it r] eqn:Eq; auto.
+  destruct Lv as [V|[W|Wn]].
+  - left. apply run_item_verified; auto.
+  - destruct (run_item_writing it (set_q r s)) as [X|X]; auto. right; left; auto. left; auto.
+  - destruct Wn as (i & w & b & A & B & C). rewrite Eq in A. destruct A as [A|A].
+    + subst it. simpl. change (s_ws (set_q r s)) with (s_ws s). rewrite B, C.
+      destruct (save_verified_live b (close_others i (set_q r s))) as [X|X]; [|left; auto|right; left; auto].
+      destruct I2 as (_ & _ & _ & E4).
+      destruct (same_ctl_close_others i (set_q r s)) as (X1 & X2 & _ & X4 & _). rewrite X1, X2, X4. auto.
+    + right; right. destruct (run_item_q it (set_q r s)) as (l & Q).
+      eapply won_mono; [apply wmono_run_item| |exists i, w, b; repeat split; eauto].
+      intros it' Hin. rewrite Q. apply in_or_app; auto.
+Qed.
+
+Lemma Live_iter n s : Inv2 s -> Live s -> Live (iter kd cb n s).
+Proof.
+  revert s; induction n; simpl; auto. intros. apply IHn. apply Inv2_step1; auto. apply Live_step1; auto.
+Qed.
+
+Lemma Live_io_done s : Live s -> Live (io_done s).
+Proof.
+  intros Lv. unfold io_done. destruct (s_io s) as [b0|]; auto.
+  destruct Lv as [V|[W|(i & w & b & A & B & C)]]; [left; auto|right; left; auto|].
+  right; right. exists i, w, b. simpl. repeat split; auto. apply in_or_app; auto.
+Qed.
+
+Lemma Live_step o s : Inv2 s -> Live s -> Live (fst (step o s)).
+Proof.
+  intros I2 Lv. destruct o; simpl.
+  - unfold set_length. destruct (s_len s); auto.
+    destruct ((0 <=? n)%Z && (n <=? Z.of_N MAX_BLOB_SIZE)%Z); auto.
+  - eapply Live_neutral; [apply same_ctl_open|apply (wmono_step (Open k))|auto].
+  - eapply Live_neutral; [apply same_ctl_write|apply (wmono_step (Write i d))|auto].
+  - eapply Live_neutral; [apply same_ctl_app_w|apply (wmono_step (CloseW i))|auto].
+  - eapply Live_neutral; [apply same_ctl_close_blob|apply wmono_close_blob|auto].
+  - apply Live_iter; auto.
+  - apply Live_iter; auto.
+  - apply Live_io_done; auto.
+Qed.
+
+Lemma Live_run ops s : Inv2 s -> Live s -> Live (run ops s).
+Proof.
+  revert s; induction ops; simpl; auto. intros. apply IHops. apply Inv2_step; auto. apply Live_step; auto.
+Qed.
+
+(* whatever happens afterwards: when nothing is left to run and no write is pending in the executor, the
+   blob is verified *)
+Lemma Live_quiescent s : Inv2 s -> Live s -> s_q s = [] -> s_io s = None -> s_verified s = true.
+Proof.
+  intros (I1 & _) [V|[W|(i & _ & _ & A & _)]] Q Io; auto.
+  - unfold io01 in I1. rewrite Q, Io, W in I1. discriminate.
+  - rewrite Q in A. destruct A.
+Qed.
+
+Definition Late (s : state) : Prop :=
+  s_verified s = true \/ In QSetState (s_q s) \/ In QWakeup (s_q s) \/ In QUpdate (s_q s).
+
+Lemma Late_step1 s : Late s -> Late (step1 kd cb s).
+Proof.
+  intros Lt. unfold step1. destruct (s_q s) as [|it r] eqn:Eq; auto.
+  destruct (run_item_q it (set_q r s)) as (l & Q). simpl in Q.
+  assert (K : forall x, In x r -> In x (s_q (run_item kd cb it (set_q r s)))).
+  { intros x Hx. rewrite Q. apply in_or_app; auto. }
+  unfold Late in *. rewrite Eq in Lt. destruct Lt as [V|[A|[A|A]]].
+  - left. apply run_item_verified; auto.
+  - destruct A as [A|A]; [|right; left; auto]. subst it. right; right; left. simpl. apply in_or_app; right; simpl; auto.
+  - destruct A as [A|A]; [|right; right; left; auto]. subst it. right; right; right. simpl. apply in_or_app; right.
+    unfold done_cbs; simpl; auto.
+  - destruct A as [A|A]; [|right; right; right; auto]. subst it. left. reflexivity.
+Qed.
+
+Lemma Late_iter n s : Late s -> Late (iter kd cb n s).
+Proof. revert s; induction n; simpl; auto. intros. apply IHn. apply Late_step1; auto. Qed.
+
+Lemma Late_quiescent s : Late s -> s_q s = [] -> s_verified s = true.
+Proof. intros [V|[A|[A|A]]] Q; auto; rewrite Q in A; destruct A. Qed.
+
+Lemma iter_verified n s : s_verified s = true -> s_verified (iter kd cb n s) = true.
+Proof.
+  revert s; induction n; simpl; auto. intros. apply IHn. unfold step1. destruct (s_q s); auto.
+  apply run_item_verified; auto.
+Qed.
+
+Lemma wins_verified s : Inv2 s -> Live s ->
+  s_verified (drain kd cb (io_done (drain kd cb s))) = true.
+Proof.
+  intros I2 Lv. set (s2 := drain kd cb s).
+  assert (I22 : Inv2 s2) by (apply Inv2_iter; auto).
+  assert (L2 : Live s2) by (apply Live_iter; auto).
+  assert (Q2 : s_q s2 = []) by apply drain_quiescent.
+  apply Late_quiescent; [|apply drain_quiescent]. apply Late_iter.
+  destruct L2 as [V|[W|(i & _ & _ & A & _)]].
+  - left. unfold io_done. destruct (s_io s2); auto.
+  - destruct I22 as (I1 & _). unfold io01 in I1. rewrite Q2, W in I1.
+    unfold io_done. destruct (s_io s2); [|discriminate]. right; left. simpl. apply in_or_app; right; simpl; auto.
+  - rewrite Q2 in A. destruct A.
 Qed.
